@@ -248,7 +248,15 @@ class Session:
             q = srv.answers_queues.get(addr)
             items = list(q._queue) if q is not None else []
             qs = ser_list(lambda it: [9] if it is None else self.ser_resp_doc(json.loads(it)), items)
-            outs = ser_list(lambda raw: self.ser_resp_doc(json.loads(raw[:-3].decode())), c.writer.chunks)
+            def _resp(raw):
+                try:
+                    doc = json.loads(raw[:-3].decode())
+                    if not isinstance(doc, dict):
+                        raise ValueError
+                except Exception:
+                    return [99]            # not a JSON document: no response of the model serialises to this
+                return self.ser_resp_doc(doc)
+            outs = ser_list(_resp, c.writer.chunks)
             return [self.aid(addr), self.conn_state(c)] + qs + outs
         out += ser_list(conn, self.conn_order)
         live = [t for t in self.handler_tasks if not t.done()]
